@@ -478,6 +478,17 @@ def replay_glue(cex, native):
     corpus = [b'', b'\r', b'\r\n\r\n\x00\r\nQUIT\n', b'\r\n\r\n\x00\r\nQUIT\n\x21\x11\x00\x0c' + bytes(12), b'\r\n\r\n\x00\r\nQUIT\n\x21\x11\x00\x0c' + bytes(5),
               b'\r\n\r\n\x00\r\nQUIT\n\x31\x11\x00\x0c' + bytes(12), b'PROXY UNKNOWN\r\n', b'PROXY TCP4 1.2.3.4 5.6.7.8 1 2\r\n', b'PROXY TCP4 1.2.3.4',
               b'PROX', b'PROXY', b'HELLO\r\n', b'PROXY TCP9 x\r\n', b'P', b'\x00', b'PROXY UNKNOWN \xff\r\n', b'PROXY TCP4 1.2.3.4 5.6.7.8 1 2\rX']
+    # lines around the 107-byte limit (CR at offsets 104..107, with and without LF / trailer), long inputs without CR,
+    # v2 headers with large payloads and trailers, every truncation of the signature
+    sig = b'\r\n\r\n\x00\r\nQUIT\n'
+    for cr in (104, 105, 106, 107):
+        line = b'PROXY UNKNOWN ' + b'a' * (cr - 14)
+        corpus += [line + b'\r', line + b'\r\n', line + b'\r\nGET / HTTP/1.1', line + b'\rX', (b'PROXY TCP4 ' + b'1' * (cr - 11)) + b'\r\n']
+    corpus += [b'PROXY UNKNOWN' + b' ' * 93, b'PROXY UNKNOWN' + b' ' * 94, b'PROXY UNKNOWN' + b' ' * 200, b'x' * 107, b'x' * 106, b'PROXY TCP6 ::1 ::1 1 2\r\n' + b'z' * 300]
+    corpus += [sig[:k] for k in range(1, 12)] + [sig + b'\x21', sig + b'\x21\x11\x00', sig + b'\x21\x11\x01\x2c' + bytes(300), sig + b'\x21\x11\x01\x2c' + bytes(299),
+               sig + b'\x21\x11\x01\x2c' + bytes(400), sig + b'\x20\x00\x00\x00', sig + b'\x20\x00\x00\x00PROXY UNKNOWN\r\n', sig + b'\x21\x21\x00\x24' + bytes(36),
+               sig + b'\x21\x31\x00\xd8' + bytes(216), sig + b'\x11\x11\x00\x0c' + bytes(12), sig + b'\x22\x11\x00\x0c' + bytes(12), sig + b'\x21\x41\x00\x0c' + bytes(12),
+               sig + b'\x21\x13\x00\x0c' + bytes(12), sig + b'\x21\x11\x00\x0b' + bytes(12), sig + b'\x21\x11\xff\xff' + bytes(65535), sig + b'\x21\x11\xff\xff' + bytes(65534)]
     bad = []
     for prof in ('dev', 'release'):
         a = native([('auto', c) for c in corpus], prof)
